@@ -294,6 +294,26 @@ pub fn accepted_low_level(level: usize, mut f: impl FnMut(u64, &[u8])) -> u64 {
         f(n, &p);
         n += 1;
     }
+    // RRsets: an owner unrelated to the question written out once and then named by bare pointers, same and
+    // different types, different TTLs, with an OPT record before, between and after
+    for optpos in 0..4usize {
+        let xy = nm("x.y");
+        let mut m = base_msg(&nm("b.a"), T_A, true);
+        m.an.push(a_rec(&xy, 300, [10, 0, 0, 1]));
+        m.an.push(a_rec(&xy, 301, [10, 0, 0, 2]));
+        m.an.push(name_rec(&xy, T_NS, 302, &nm("ns.x.y")));
+        m.ns.push(soa_rec(&xy, 303, &nm("ns.x.y"), &nm("admin.x.y")));
+        m.ar.push(a_rec(&nm("ns.x.y"), 304, [10, 0, 0, 3]));
+        m.ar.push(aaaa_rec(&nm("ns.x.y"), 305, [0x20; 16]));
+        if optpos < 3 {
+            m.ar.insert(optpos, opt_variants()[1].clone());
+        }
+        for st in [Strategy::Max, Strategy::Plain, Strategy::Chain, Strategy::RdataOnly] {
+            let p = encode(&m, st);
+            f(n, &p);
+            n += 1;
+        }
+    }
     // names of 1..127 labels (one byte each) as question, as owner via pointer and inside NS data
     for labels in (1..=127usize).filter(|l| *l <= 24 || l % 8 == 7) {
         let mut q = vec![];
@@ -1008,6 +1028,21 @@ pub fn flags_truncation_packets(mut f: impl FnMut(u64, &[u8])) -> u64 {
         m.ar.push(soa_rec(&long, 1, &long, &long));
         m.ar.push(opt_variants()[1].clone());
         m.ar.push(name_rec(&long, T_NS, 1, &long));
+        seeds.push(encode(&m, Strategy::Max));
+    }
+    // an RRset: three records of one type whose owner is written out once (a name unrelated to the question)
+    // and then named by bare pointers; and the same with an NS set
+    for t in [T_A, T_NS] {
+        let xy = nm("x.y");
+        let mut m = base_msg(&nm("b.a"), T_A, true);
+        for i in 0..3u8 {
+            if t == T_A {
+                m.an.push(a_rec(&xy, 300, [10, 0, 0, i]));
+            } else {
+                m.an.push(name_rec(&xy, T_NS, 300, &nm(&format!("ns{}.x.y", i))));
+            }
+        }
+        m.ar.push(a_rec(&xy, 5, [10, 0, 0, 9]));
         seeds.push(encode(&m, Strategy::Max));
     }
     for s in seeds.iter().filter(|s| s.len() < 400) {
